@@ -22,6 +22,9 @@ theorem readTail_ok {b E R : Bytes} {i id bl : Nat} (hb : b.drop i = E ++ (beN 8
     rw [← List.drop_drop, hb]; exact drop_app hE _
   have d2 : b.drop (i + hashSize + 8) = R := by
     rw [← List.drop_drop, d1]; exact drop_app (beN_length 8 bl) _
+  have c0 : ¬ (b.length < i + hashSize + Gen.storeTxIDSize + hashSize) := by
+    have : Gen.storeTxIDSize = 8 := rfl
+    unfold hashSize; omega
   have c1 : ¬ (i > b.length) := by omega
   have c2 : ¬ (i + hashSize > b.length) := by unfold hashSize; omega
   have c3 : ¬ (i + hashSize + 8 > b.length) := by unfold hashSize; omega
@@ -31,7 +34,7 @@ theorem readTail_ok {b E R : Bytes} {i id bl : Nat} (hb : b.drop i = E ++ (beN 8
   have hR' : copy32 R = R := by
     have := copy32_exact hR []
     simpa using this
-  simp only [readTail, sliceFrom, c1, c2, c3, if_false, hb, d1, d2, u64At, c4,
+  simp only [readTail, c0, sliceFrom, c1, c2, c3, if_false, hb, d1, d2, u64At, c4,
     take_app (beN_length 8 bl), hv, c5, copy32_exact hE, hR']
 
 theorem lowBits_small {w : Nat} {x : Int} (h0 : 0 ≤ x) (h1 : x < ((256 ^ w : Nat) : Int)) :
@@ -171,5 +174,64 @@ theorem hdr_roundtrip_aux (h : TxHdr) (hw : h.wf = true) :
         simp only [hdrReadFrom, cl, if_false, t8, hidv, cid, dP, dT, htsv, dV, hv1, hmid, cn, htail]
         simp only [TxHdr.norm] at hsome ⊢
         simp [hnn, hsome]
+
+
+-- ---------------------------------------------------------------- ReadFrom never panics
+
+theorem readTail_noPanic (b : Bytes) (i id : Nat) : readTail b i id ≠ .error .panic := by
+  have h8 : Gen.storeTxIDSize = 8 := rfl
+  by_cases c0 : b.length < i + hashSize + Gen.storeTxIDSize + hashSize
+  · simp [readTail, c0]
+  · have c1 : ¬ (i > b.length) := by unfold hashSize at c0; omega
+    have c2 : ¬ (i + hashSize > b.length) := by unfold hashSize at *; omega
+    have c3 : ¬ (i + hashSize + 8 > b.length) := by unfold hashSize at *; omega
+    have c4 : ¬ ((b.drop (i + hashSize)).length < 8) := by
+      simp only [List.length_drop]; unfold hashSize at *; omega
+    simp only [readTail, sliceFrom, c0, c1, c2, c3, if_false, u64At, c4]
+    split <;> simp
+
+theorem readMid_noPanic (b : Bytes) (version : Nat) : readMid b version ≠ .error .panic := by
+  unfold readMid
+  simp only []
+  split
+  · simp
+  · split
+    · split
+      · simp
+      · split
+        · have hs := txmdReadFrom_spec (List.take (beVal (List.take 2 (List.drop 50 b))) (List.drop (50 + 2) b))
+          cases hr : txmdReadFrom (List.take (beVal (List.take 2 (List.drop 50 b))) (List.drop (50 + 2) b)) with
+          | ok md => simp
+          | error f =>
+            rw [hr] at hs
+            simp only [OkWf] at hs
+            simpa using hs
+        · simp
+    · simp
+
+/-- `TxHeader.ReadFrom` never panics (versions 0 and 1, any metadata, any length). -/
+theorem hdrReadFrom_noPanic (b : Bytes) : hdrReadFrom b ≠ .error .panic := by
+  unfold hdrReadFrom
+  simp only []
+  split
+  · simp
+  · split
+    · simp
+    · cases hm : readMid b (beVal (List.take 2 (List.drop 48 b))) with
+      | error f =>
+        have := readMid_noPanic b (beVal (List.take 2 (List.drop 48 b)))
+        rw [hm] at this
+        simpa using this
+      | ok r =>
+        obtain ⟨md, ne, i⟩ := r
+        simp only []
+        split
+        · simp
+        · cases ht : readTail b i (beVal (List.take 8 b)) with
+          | error f =>
+            have := readTail_noPanic b i (beVal (List.take 8 b))
+            rw [ht] at this
+            simpa using this
+          | ok t => obtain ⟨eh, bl, br⟩ := t; simp
 
 end ImmuModel.Tx
